@@ -34,6 +34,7 @@ structure Carrier (α : Type) where
 /-- equations of flows / auxiliaries / initial values -/
 inductive Ex (α : Type)
   | lit (a : α)
+  | int (i : Int)                       -- Python int literal
   | ref (n : Nat)                       -- another element, same time
   | time                                -- TIME
   | dt                                  -- DT
@@ -90,6 +91,7 @@ def lerp (C : Carrier α) (pts : List (α × α)) (x : α) : Option α :=
 
 def evalEx (C : Carrier α) (dtv tnow : α) (look : Nat → Option α) : Ex α → Option α
   | .lit a => some a
+  | .int i => some (C.int i)
   | .ref n => look n
   | .time => some tnow
   | .dt => some dtv
@@ -198,6 +200,7 @@ deriving Repr, Inhabited, DecidableEq
 
 def cEx (te : TE) : Ex α → Tm α
   | .lit a => .lit a
+  | .int i => .int i
   | .ref n => .memo n te
   | .time => .time
   | .dt => .dt
@@ -227,6 +230,30 @@ def compileElem (n : Nat) : Elem α → Tm α
   | .aux e => cEx .cur e
   | .gf e pts => .lerp (cEx .cur e) pts
 
+def exRefs : Ex α → List Nat
+  | .ref n => [n]
+  | .bin _ l r => exRefs l ++ exRefs r
+  | .mx l r => exRefs l ++ exRefs r
+  | .mn l r => exRefs l ++ exRefs r
+  | .ite _ a b x y => exRefs a ++ exRefs b ++ exRefs x ++ exRefs y
+  | _ => []
+
+/-- references evaluated at the same time as the element itself -/
+def sameRefs : Elem α → List Nat
+  | .stock init _ _ => exRefs init
+  | .flow _ e => exRefs e
+  | .aux e => exRefs e
+  | .gf e _ => exRefs e
+
+/-- references evaluated one step back -/
+def prevRefs : Elem α → List Nat
+  | .stock _ ins outs => ins ++ outs
+  | _ => []
+
+def hasPoints : Elem α → Bool
+  | .gf _ [] => false
+  | _ => true
+
 /-- the `equations` dictionary of the generated class -/
 def compile (M : Model α) (n : Nat) : Option (Tm α) := (M.elems[n]?).map (compileElem n)
 
@@ -245,14 +272,14 @@ def sumEx : Ex α → List Nat → Ex α
   | acc, n :: ns => sumEx (.bin .add acc (.ref n)) ns
 
 /-- how the DSL model of the graph spells the net flow: `(i0+i1+…) - (o0+o1+…)` -/
-def netEx (zero negOne : α) : List Nat → List Nat → Ex α
-  | [], [] => .lit zero
+def netEx : List Nat → List Nat → Ex α
+  | [], [] => .int 0
   | i :: is, [] => sumEx (.ref i) is
-  | [], o :: os => .bin .mul (.lit negOne) (sumEx (.ref o) os)
+  | [], o :: os => .bin .mul (.int (-1)) (sumEx (.ref o) os)
   | i :: is, o :: os => .bin .sub (sumEx (.ref i) is) (sumEx (.ref o) os)
 
-def toDsl (zero negOne : α) : Elem α → DslElem α
-  | .stock init ins outs => .stock init (netEx zero negOne ins outs)
+def toDsl : Elem α → DslElem α
+  | .stock init ins outs => .stock init (netEx ins outs)
   | .flow true e => .flow e
   | .flow false e => .biflow e
   | .aux e => .converter e
